@@ -100,6 +100,7 @@ class Registry:
         self.ctors = {}        # class qual -> handler(engine, st, args, kwargs, node) -> outcomes
         self.call_hooks = []   # callables(engine, node, st) -> outcomes | None   (domain-specific call forms)
         self.attr_hooks = []
+        self.post_hooks = []   # callables(engine, st, binding, pre) after any contract has been applied at a call site
         self.entry_hooks = []  # callables(engine, st, names) at function entry (after requires)
         self.loop_hooks = []   # callables(engine, st) at a loop head (after havoc, before the invariant is assumed)
 
@@ -107,9 +108,10 @@ class Registry:
         self.contracts.setdefault(c.qual, []).append(c)
         return c
 
-    def view(self, v):
+    def view(self, v, default=True):
         self.views[v.short] = v
-        self.views_by_qual[v.qual] = v
+        if default or v.qual not in self.views_by_qual:
+            self.views_by_qual[v.qual] = v
         return v
 
     def specfun(self, name):
